@@ -69,6 +69,13 @@ CLAIMED = {
         "Every string of <= 4 (thorough 5) tokens over a 29-token near-miss CSS alphabet and every tuple/list of length 0..4 (5) over a 21-element "
         "alphabet goes through Color / ColorPair / make_readable / make_readable_bulk: nothing raises, invalid input is reported as the statement says.",
         "Bounded by alphabet and length; nested sequences are outside the statement.", "DESIGN.md 4/C14"),
+    "C15": ("explicit-state exploration of operation histories (every sequence up to a depth bound from a pristine forked interpreter) and "
+            "stateless pre-emption-bounded exploration of thread schedules under a controlled scheduler (sys.settrace baton), on the real code",
+        "Every sequence of <= 2 (thorough 3) operations over an alphabet with colliding arguments is run from a pristine state and each result "
+        "compared with the operation alone in a freshly exec'd interpreter; the reference table is recomputed under 5 hash seeds; every "
+        "schedule with <= 1 pre-emption (line granularity; thorough also <= 2 at call granularity) of 6-9 thread workloads is executed and "
+        "each thread's result compared with its sequential result; a recorded schedule replayed twice must give identical traces.",
+        "Scheduling points are trace events, not bytecodes; GIL builds only; bounded by the operation alphabet, depth and pre-emption bound.", "DESIGN.md 4/C15"),
     "C16": (T_SMALL + "; relational oracle between modes / strictness settings",
         "Every pair of the lattice (incl. far-below texts needing several steps) x large x very_readable: mode-1 success implies the identical mode-2 "
         "result; very_readable success implies ordinary success.",
